@@ -101,27 +101,80 @@ pub struct BatchResult {
     pub hashes: Vec<(u64, u64)>,
 }
 
-/// what every worker is executing right now: (run index + 1, start in ms since batch start); 0 = idle
+/// CPU time consumed so far by the calling thread, in ms
+pub fn thread_cpu_ms() -> u64 {
+    let mut ts = libc::timespec { tv_sec: 0, tv_nsec: 0 };
+    unsafe { libc::clock_gettime(libc::CLOCK_THREAD_CPUTIME_ID, &mut ts) };
+    ts.tv_sec as u64 * 1000 + ts.tv_nsec as u64 / 1_000_000
+}
+
+/// the CPU-time clock of the calling thread, readable from other threads
+pub fn thread_cpu_clock() -> i64 {
+    let mut cid: libc::clockid_t = 0;
+    let rc = unsafe { libc::pthread_getcpuclockid(libc::pthread_self(), &mut cid) };
+    if rc == 0 {
+        cid as i64
+    } else {
+        -1
+    }
+}
+
+pub fn cpu_ms_of(clock: i64) -> Option<u64> {
+    if clock == -1 {
+        return None;
+    }
+    let mut ts = libc::timespec { tv_sec: 0, tv_nsec: 0 };
+    let rc = unsafe { libc::clock_gettime(clock as libc::clockid_t, &mut ts) };
+    if rc == 0 {
+        Some(ts.tv_sec as u64 * 1000 + ts.tv_nsec as u64 / 1_000_000)
+    } else {
+        None
+    }
+}
+
+pub struct Slot {
+    /// run index + 1; 0 = idle
+    pub run: AtomicU64,
+    pub start_wall_ms: AtomicU64,
+    /// CPU time of the worker thread when the run started
+    pub start_cpu_ms: AtomicU64,
+    pub cpu_clock: std::sync::atomic::AtomicI64,
+}
+
+/// what every worker is executing right now
 pub struct Progress {
-    pub slots: Vec<(AtomicU64, AtomicU64)>,
+    pub slots: Vec<Slot>,
     pub done: AtomicU64,
+    pub longest_run_cpu_ms: AtomicU64,
     pub start: Instant,
 }
 
+/// A run counts as not terminating when its thread has burnt this much CPU time inside it (machine load does not
+/// count), or when it has not returned for the wall-clock limit (a blocked thread burns nothing).
+pub const HANG_CPU_S: u64 = 300;
+pub const HANG_WALL_S: u64 = 3600;
+
 impl Progress {
     pub fn new(workers: usize) -> Arc<Progress> {
-        Arc::new(Progress { slots: (0..workers.max(1)).map(|_| (AtomicU64::new(0), AtomicU64::new(0))).collect(), done: AtomicU64::new(0), start: Instant::now() })
+        Arc::new(Progress {
+            slots: (0..workers.max(1)).map(|_| Slot { run: AtomicU64::new(0), start_wall_ms: AtomicU64::new(0), start_cpu_ms: AtomicU64::new(0), cpu_clock: std::sync::atomic::AtomicI64::new(-1) }).collect(),
+            done: AtomicU64::new(0),
+            longest_run_cpu_ms: AtomicU64::new(0),
+            start: Instant::now(),
+        })
     }
 
-    /// a run that has been executing for longer than `limit_s`: (index, seconds)
-    pub fn stuck(&self, limit_s: u64) -> Option<(u64, u64)> {
+    /// a run that exceeded a limit: (index, CPU seconds, wall seconds)
+    pub fn stuck(&self, cpu_limit_s: u64, wall_limit_s: u64) -> Option<(u64, u64, u64)> {
         let now = self.start.elapsed().as_millis() as u64;
-        for (idx, st) in &self.slots {
-            let i = idx.load(Ordering::Relaxed);
+        for sl in &self.slots {
+            let i = sl.run.load(Ordering::Acquire);
             if i > 0 {
-                let age = now.saturating_sub(st.load(Ordering::Relaxed)) / 1000;
-                if age >= limit_s {
-                    return Some((i - 1, age));
+                let wall = now.saturating_sub(sl.start_wall_ms.load(Ordering::Relaxed)) / 1000;
+                let cpu = cpu_ms_of(sl.cpu_clock.load(Ordering::Relaxed)).map(|c| c.saturating_sub(sl.start_cpu_ms.load(Ordering::Relaxed)) / 1000).unwrap_or(0);
+                // the slot may have moved on to another run while we looked
+                if sl.run.load(Ordering::Acquire) == i && (cpu >= cpu_limit_s || wall >= wall_limit_s) {
+                    return Some((i - 1, cpu, wall));
                 }
             }
         }
@@ -196,10 +249,15 @@ pub fn run_batch_with(sc: &'static dyn Scenario, tier: Tier, batch_seed: u64, ru
                     }
                     let seed = run_seed(batch_seed, sc.id(), i);
                     let ctx = RunCtx { tier, index: i, render: false, verbose: false, step_cap: None };
-                    progress.slots[slot].1.store(progress.start.elapsed().as_millis() as u64, Ordering::Relaxed);
-                    progress.slots[slot].0.store(i + 1, Ordering::Relaxed);
+                    let sl = &progress.slots[slot];
+                    let cpu0 = thread_cpu_ms();
+                    sl.cpu_clock.store(thread_cpu_clock(), Ordering::Relaxed);
+                    sl.start_wall_ms.store(progress.start.elapsed().as_millis() as u64, Ordering::Relaxed);
+                    sl.start_cpu_ms.store(cpu0, Ordering::Relaxed);
+                    sl.run.store(i + 1, Ordering::Release);
                     let out = sc.run(seed, Chooser::from_seed(seed), &ctx);
-                    progress.slots[slot].0.store(0, Ordering::Relaxed);
+                    sl.run.store(0, Ordering::Release);
+                    progress.longest_run_cpu_ms.fetch_max(thread_cpu_ms().saturating_sub(cpu0), Ordering::Relaxed);
                     progress.done.fetch_add(1, Ordering::Relaxed);
                     local_done += 1;
                     local_sim += out.sim_ms;
